@@ -579,7 +579,7 @@ fn run_batch(input: &Value) -> Case {
         if panics > 0 { "-panic" } else { "" },
         if accepted_elsewhere > 0 { "-REPLAY-ACCEPTED" } else { "" }
     );
-    Case { gallina, json: out, class, nontrivial: any_cup || steps.len() > 1, key: serde_json::to_string(input).unwrap() }
+    Case { gallina, json: out, class, nontrivial: any_cup || steps.len() > 1, key: serde_json::to_string(input).unwrap(), features: vec![] }
 }
 
 // ---------------------------------------------------------------- the real state machine against the in-process server
@@ -703,6 +703,7 @@ fn run_sm(input: &Value) -> Case {
                        if forced { "-forced" } else { "" }, if cup { "-cup" } else { "" }),
         nontrivial: true,
         key: serde_json::to_string(input).unwrap(),
+        features: vec![],
     }
 }
 
